@@ -170,6 +170,30 @@ example : validateEntry (fun _ => true) { id := "x", type := "StatusList2021Entr
 example : validateEntry (fun _ => true) { id := "https://l", type := "T", purpose := "", index := "x", list := "https://l" }
     = .err "id-is-list" := by decide
 
+/-- `status_list_urls_injective`: under one base URL, `statusListURL` renders different (issuer, page) pairs as different URLs —
+    for every issuer string (no assumption on its characters) and every page number. -/
+theorem status_list_urls_injective (base i1 i2 : String) (p1 p2 : Nat) (h : renderSl base i1 p1 = renderSl base i2 p2) :
+    i1 = i2 ∧ p1 = p2 := renderSl_injective base i1 i2 p1 p2 h
+
+example : renderSl "https://n0.example" "did:web:example.com:iam:alice" 12 = "https://n0.example/statuslist/did:web:example.com:iam:alice/12" := by
+  simp [renderSl, renderSlChars, natDigits]
+
+/-- `wire_entries_distinct_same_base`: `wire_entries_distinct` without the rendering contract for lists of one base URL: two
+    `Entry` calls of any schedule whose lists are pages under the same base never share the (statusListCredential,
+    statusListIndex) strings that go into the credentials. -/
+theorem wire_entries_distinct_same_base (E : Env) (w0 : EWorld) (h0 : EInv E w0) (acts : List EAct)
+    (t1 t2 : Nat) (th1 th2 : EThread) (base is1 is2 : String) (p1 p2 i1 i2 : Nat) (hne : t1 ≠ t2)
+    (h1 : (eRun E w0 acts).threads[t1]? = some th1) (h2 : (eRun E w0 acts).threads[t2]? = some th2)
+    (hp1 : th1.phase = .done (.sl base is1 p1) i1) (hp2 : th2.phase = .done (.sl base is2 p2) i2) :
+    ((issuedEntry (renderUrl (.sl base is1 p1)) i1).list, (issuedEntry (renderUrl (.sl base is1 p1)) i1).index) ≠
+      ((issuedEntry (renderUrl (.sl base is2 p2)) i2).list, (issuedEntry (renderUrl (.sl base is2 p2)) i2).index) := by
+  intro heq
+  simp only [issuedEntry, renderUrl, Prod.mk.injEq] at heq
+  obtain ⟨hi, hp⟩ := renderSl_injective _ _ _ _ _ heq.1
+  have hx := itoa_nat_injective _ _ heq.2
+  subst hi; subst hp; subst hx
+  exact (entries_injective E w0 h0 acts).1 t1 t2 th1 th2 _ _ hne h1 h2 hp1 hp2
+
 /-! ### regenerated facts the wire model relies on -/
 
 /-- the top-level statements of `StatusList2021Entry.Validate` are exactly the five checks, in the model's order, each
